@@ -8,10 +8,11 @@ MUST_ENTER = [('a5/math/vec3.py', 'tripleProduct'), ('a5/math/vec3.py', 'vectorD
               ('a5/math/vec3.py', 'slerp'), ('a5/geometry/spherical_polygon.py', 'get_triangle_area'), ('a5/core/cell.py', 'lonlat_to_cell')]
 RULE = ('(i) systematic preemption injection (sys.monitoring, context bound 2): for ordered pairs (A, B) of concrete calls from a catalogue '
         'covering all 13 public functions (geometric calls on several faces, a pole, the antimeridian, low and high resolution), B is run '
-        'to completion inside the k-th LINE event of A; quick: up to 1,000 injection points per geometric pair (exhaustive when A has fewer '
+        'to completion inside the k-th LINE event of A; quick: up to 800 injection points per geometric pair (exhaustive when A has fewer '
         'events, strided with a seed-dependent offset otherwise) and 40 per other pair; thorough: exhaustive for every pair. INSTRUCTION-level '
         'injection inside vec3 / spherical_polygon / spherical_triangle / polyhedral / dodecahedron / pentagon / vec2 / quat code objects '
-        '(strided quick, exhaustive thorough). Verdict: A result and injected B result bit-equal to their single-threaded baselines, no '
+        '(strided quick, exhaustive thorough); cold-start schedules: all shared containers rewound to their import-time contents before A, B '
+        'injected at every LINE event that only a cold run executes (cache-fill code) plus a stride sample. Verdict: A result and injected B result bit-equal to their single-threaded baselines, no '
         'exception. (ii) real threads: 8 and 16 threads, switch interval 1 us, mixed operations against precomputed expectations. '
         'distinct = distinct (A, B, granularity, event index) executions; non-trivial = injections that actually fired inside a5 code')
 ASSUMPTIONS = ['context bound 2 with B run to completion; schedules with three or more interleaved calls or a partial B are only reached by the real-thread run',
@@ -72,7 +73,7 @@ def plan(tier, seed):
     other_pairs = [(a, b) for a in allnames for b in allnames if not (a in GEO and b in GEO)]
     nsh = 12 if tier == 'quick' else 32
     for i in range(nsh):
-        specs.append({'part': 'inject', 'pairs': geo_pairs[i::nsh], 'cap': 1000 if tier == 'quick' else 0, 'mode': 'line'})
+        specs.append({'part': 'inject', 'pairs': geo_pairs[i::nsh], 'cap': 800 if tier == 'quick' else 0, 'mode': 'line'})
     nso = 2 if tier == 'quick' else 8
     for i in range(nso):
         specs.append({'part': 'inject', 'pairs': other_pairs[i::nso], 'cap': 40 if tier == 'quick' else 0, 'mode': 'line'})
@@ -82,16 +83,21 @@ def plan(tier, seed):
         specs.append({'part': 'inject', 'pairs': ipairs[i::nsi], 'cap': 250 if tier == 'quick' else 0, 'mode': 'instruction'})
     for i, nt in enumerate((8, 16, 8) if tier == 'quick' else (8, 16, 8, 16, 4, 32)):
         specs.append({'part': 'threads', 'threads': nt, 'seconds': 15 if tier == 'quick' else 100})
+    nsc = 6 if tier == 'quick' else 18
+    cpairs = [(a, b) for a in GEO for b in ('l2c_mid', 'c2b_seg', 'c2l_deep')]
+    for i in range(nsc):
+        specs.append({'part': 'inject_cold', 'pairs': cpairs[i::nsc], 'cap': 60 if tier == 'quick' else 600})
     specs.append({'part': 'footprint'})
     return specs
 
 
-def inject_pair(a5, sched, inj, cat, an, bn, mode, k, ctx, base):
+def inject_pair(a5, sched, inj, cat, an, bn, mode, k, ctx, base, cold=False):
     A, B = make_call(a5, cat[an]), make_call(a5, cat[bn])
     st, res = inj.run(A, B, k, mode)
     fired = inj.where is not None
-    case = {'A': an, 'B': bn, 'A_call': cat[an], 'B_call': cat[bn], 'mode': mode, 'k': k, 'site': list(inj.where) if inj.where else None}
-    ctx.case((an, bn, mode, k), nontrivial=fired)
+    case = {'A': an, 'B': bn, 'A_call': cat[an], 'B_call': cat[bn], 'mode': mode, 'k': k, 'site': list(inj.where) if inj.where else None,
+            'cold': cold}
+    ctx.case((an, bn, mode, k, cold), nontrivial=fired)
     if st == 'exc':
         ctx.fail('A_raises', case, exc=repr(res))
     elif sched.canon(res) != base[an]:
@@ -108,6 +114,8 @@ def inject_pair(a5, sched, inj, cat, an, bn, mode, k, ctx, base):
 def run_shard(spec, ctx):
     import a5
     from rv import sched, state
+    import a5.core.cell, a5.core.compact  # noqa
+    rew = state.Rewinder()  # import-time (cold) contents of every shared container
     a5dir = os.path.dirname(os.path.realpath(a5.__file__))
     cat = catalogue(a5, spec['seed'])
     base = {n: sched.canon(make_call(a5, s)()) for n, s in cat.items()}
@@ -137,6 +145,34 @@ def run_shard(spec, ctx):
         for s in inj.sites:
             ctx.setadd('preemption_sites_%s' % mode, s)
             ctx.setadd('preemption_site_functions', (s[0], s[1]))
+        inj.close()
+    elif spec['part'] == 'inject_cold':
+        # cold-start schedules: every shared container is put back to its import-time contents before A starts, B is injected
+        # at every LINE event that only a cold run executes (cache-fill code) and at a stride sample of the others
+        inj = sched.Injector(a5dir)
+        for an, bn in spec['pairs']:
+            A = make_call(a5, cat[an])
+            A()
+            warm = set(inj.trace_of(A))
+            rew.rewind()
+            cold = inj.trace_of(A)
+            only = [i + 1 for i, loc in enumerate(cold) if loc not in warm]
+            ctx.maxi('cold_only_events_%s' % an, len(only))
+            step = max(1, len(cold) // spec['cap'])
+            ks = sorted(set(only) | set(range(1 + int(ctx.rnd.random() * step), len(cold) + 1, step)))
+            for k in ks:
+                rew.rewind()
+                if inject_pair(a5, sched, inj, cat, an, bn, 'line', k, ctx, base, cold=True):
+                    ctx.count('injections_fired_cold')
+                # the caches that this schedule filled must serve later calls correctly too
+                for n2 in (an, bn):
+                    r2 = sched.canon(make_call(a5, cat[n2])())
+                    if r2 != base[n2]:
+                        ctx.fail('wrong_result_after_cold_schedule', {'A': an, 'B': bn, 'A_call': cat[an], 'B_call': cat[bn], 'mode': 'line',
+                                                                         'k': k, 'cold': True, 'later_call': n2})
+            ctx.count('pairs_cold')
+        for s in inj.sites:
+            ctx.setadd('preemption_sites_cold', s)
         inj.close()
     elif spec['part'] == 'threads':
         names = sorted(cat)
@@ -189,6 +225,8 @@ def finalize(m, tier):
     c = m['counters']
     if c.get('injections_fired_line', 0) < 5000 or c.get('injections_fired_instruction', 0) < 500:
         inc.append('too few injections fired')
+    if c.get('injections_fired_cold', 0) < 300:
+        inc.append('too few cold-start injections fired')
     if c.get('thread_ops', 0) < 2000:
         inc.append('too few thread operations')
     if c.get('thread_watchdog_expired', 0):
@@ -198,7 +236,9 @@ def finalize(m, tier):
 
 def replay(f, ctx):
     import a5
-    from rv import sched
+    from rv import sched, state
+    import a5.core.cell, a5.core.compact  # noqa
+    rew = state.Rewinder()
     c = f['case']
     if 'A_call' in c:
         a5dir = os.path.dirname(os.path.realpath(a5.__file__))
@@ -209,7 +249,13 @@ def replay(f, ctx):
         import a5.projections.polyhedral as m4, a5.projections.dodecahedron as m5, a5.geometry.pentagon as m6
         import a5.math.vec2 as m7, a5.math.quat as m8, a5.core.coordinate_transforms as m9, a5.projections.crs as m10
         inj.set_instruction_targets([m1, m2, m3, m4, m5, m6, m7, m8, m9, m10])
-        inject_pair(a5, sched, inj, cat, c['A'], c['B'], c['mode'], c['k'], ctx, base)
+        if c.get('cold'):
+            rew.rewind()
+        inject_pair(a5, sched, inj, cat, c['A'], c['B'], c['mode'], c['k'], ctx, base, cold=bool(c.get('cold')))
+        if c.get('cold'):
+            for n2 in (c['A'], c['B']):
+                if sched.canon(make_call(a5, cat[n2])()) != base[n2]:
+                    ctx.fail('wrong_result_after_cold_schedule', c)
         inj.close()
     else:
         op = make_call(a5, tuple(c['op']))
